@@ -729,27 +729,17 @@ class Path:
 
     def __getitem__(self, i):
         cur_t_path = self.path_t.__ops__
-        try:
-            step = i.step
-            start = i.start if i.start is not None else 0
-            stop = i.stop
-
-            start = (start * 2) + 1 if start >= 0 else (start * 2) + len(cur_t_path)
-            if stop is not None:
-                stop = (stop * 2) + 1 if stop >= 0 else (stop * 2) + len(cur_t_path)
-        except AttributeError:
-            step = 1
-            start = (i * 2) + 1 if i >= 0 else (i * 2) + len(cur_t_path)
-            if start < 0 or start > len(cur_t_path):
+        # index the steps like a tuple of (operation, value) pairs
+        steps = tuple(zip(cur_t_path[1::2], cur_t_path[2::2]))
+        if isinstance(i, slice):
+            steps = steps[i]
+        else:
+            try:
+                steps = (steps[i],)
+            except IndexError:
                 raise IndexError('Path index out of range')
-            stop = ((i + 1) * 2) + 1 if i >= 0 else ((i + 1) * 2) + len(cur_t_path)
-
         new_t = TType()
-        new_path = cur_t_path[start:stop]
-        if step is not None and step != 1:
-            new_path = tuple(zip(new_path[::2], new_path[1::2]))[::step]
-            new_path = sum(new_path, ())
-        new_t.__ops__ = (cur_t_path[0],) + new_path
+        new_t.__ops__ = (cur_t_path[0],) + sum(steps, ())
         return Path(new_t)
 
     def __repr__(self):
